@@ -119,8 +119,23 @@ class Endpoint:
             return conn.clear_outbound_data_buffer()
         raise ValueError('unknown op ' + op)
 
+    out_rng = None       # C21: when set (chunked replays), the output is taken with data_to_send(amount) in random amounts
+
     def take_output(self):
-        data = self.conn.data_to_send()
+        if self.out_rng is None:
+            data = self.conn.data_to_send()
+        else:
+            # any sequence of data_to_send(amount) calls must yield a partition of what one data_to_send() returns
+            data = b''
+            for _ in range(10000):
+                amount = self.out_rng.choice([1, 2, 3, 8, 9, 10, 17, 100, 16384, 16393])
+                piece = self.conn.data_to_send(amount)
+                if len(piece) > amount:
+                    data += b'<data_to_send returned more than asked for>'
+                data += piece
+                if not piece:
+                    break
+            data += self.conn.data_to_send()
         frames = self.obs.feed(data)
         # the harness peer is a conforming HTTP/2 peer: it remembers the HEADER_TABLE_SIZE carried by each SETTINGS
         # frame it sees and starts using it when it acknowledges THAT frame (RFC 7540 6.5.3, RFC 7541 4.2)
@@ -206,9 +221,9 @@ class Endpoint:
             for sid, s in conn.streams.items():
                 sm = s.state_machine
                 ecl = s._expected_content_length
-                out.append({'sid': sid, 'st': sm.state.name, 'cl': tri(sm.client), 'hs': bool(sm.headers_sent),
-                            'ts': bool(sm.trailers_sent), 'hr': bool(sm.headers_received),
-                            'tr': bool(sm.trailers_received), 'by': by(sm.stream_closed_by),
+                out.append({'sid': sid, 'st': sm.state.name, 'cl': tri(sm.client), 'hs': tri(sm.headers_sent),
+                            'ts': tri(sm.trailers_sent), 'hr': tri(sm.headers_received),
+                            'tr': tri(sm.trailers_received), 'by': by(sm.stream_closed_by),
                             'ow': absn.i32(s.outbound_flow_control_window), 'iw': wm(s._inbound_window_manager),
                             'ecl': [] if ecl is None else [max(min(ecl, 2 ** 31 - 1), -(2 ** 31 - 1))],
                             'acl': s._actual_content_length, 'meth': txt(s.request_method), 'auth': txt(s._authority)})
@@ -276,6 +291,8 @@ class Session:
         if meta.get('chunk_seed') is not None:
             import random
             self.chunk_rng = random.Random(meta['chunk_seed'])
+            for ep in self.eps.values():
+                ep.out_rng = random.Random(meta['chunk_seed'] + 17)
         # C28: digest of every byte the endpoints emitted, in order
         import hashlib
         self.digest = hashlib.sha256()
@@ -398,7 +415,11 @@ class Session:
         if rng is None or len(data) < 2:
             return [data]
         if rng.random() < 0.25:
-            return [data[i:i + 1] for i in range(len(data))]
+            if len(data) <= 600:
+                return [data[i:i + 1] for i in range(len(data))]
+            # a long input: octet by octet across the first frame headers, the rest in two pieces
+            k = rng.randrange(300, len(data))
+            return [data[i:i + 1] for i in range(300)] + [data[300:k], data[k:]]
         cuts = sorted({rng.randrange(1, len(data)) for _ in range(rng.randrange(1, 5))})
         out, prev = [], 0
         for c in cuts + [len(data)]:
